@@ -227,6 +227,13 @@ def _record_random(item):
     if metric == "r2" and rng.random() < 0.3:       # heights far from the origin (R2 is translation invariant)
         P[:, 1] = np.round(P[:, 1] * 8) / 8 + float(2 ** 26)
         rel = 1e-6
+    if rng.random() < 0.25:
+        # abscissae far from the origin relative to their spacing (exactly representable): the definition interpolates
+        # between breakpoints, so it is translation invariant in x; a relative comparison of segment end abscissae is not
+        xs = np.round(P[:, 0])
+        if np.all(np.diff(xs) > 0):
+            P[:, 0] = xs + float(2 ** 20)
+            rel = 1e-6
     queries = []
     for _ in range(rng.randint(1, 8)):
         k = rng.randint(0, n - 2)
